@@ -575,6 +575,7 @@ def d6_9(ctx):
         (dt, "STRINGN", "STRINGN.encode(v)", "abc", b"\x01\x00\x03\x00abc"), (dt, "STRINGN", "STRINGN.encode(v, 2)", "ab", b"\x02\x00\x02\x00a\x00b\x00"), (dt, "STRINGN", "STRINGN.encode(v)", "", b"\x01\x00\x00\x00"),
         (dt, "STRINGI", "STRINGI.encode((v, STRING, 'eng', 4), ('x', SHORT_STRING, 'fra', 5))", "hello", b"\x02eng\xd0\x04\x00\x05\x00hellofra\xda\x05\x00\x01x"),
         (pc, "PCCC_ASCII", "PCCC_ASCII.encode(v)", "ab", b"ba"), (pc, "PCCC_STRING", "PCCC_STRING.encode(v)", "abcd", b"\x04\x00badc"),
+        (pc, "PCCC_STRING", "PCCC_STRING.encode(v)", "ab" * 41, b"\x52\x00" + b"ba" * 41),  # a full element: 2 + 82 bytes, more data may follow
     ]
     for mod, cname, expr, value, wire in cases:
         key = ckey(f"{mod.name}:{cname}", f"witness:{expr}:{value if not isinstance(value, list) else ''.join('1' if b else '0' for b in value)}")
@@ -591,7 +592,7 @@ def d6_9(ctx):
             enc_ok, enc_note = False, f"raises {type(err).__name__}"
         # decode back (STRINGI returns three lists, STRINGN needs the stream form; both through T.decode)
         it = Interp(ctx, mod)
-        stream = Stream(wire + (b"" if cname == "PCCC_STRING" else b"\xaa\xbb"))  # the PCCC string element is a fixed 84-byte field: decoded from the exact element
+        stream = Stream(wire + (b"" if cname == "PCCC_STRING" and len(wire) < 84 else b"\xaa\xbb"))  # the PCCC string element is a fixed 84-byte field: decoded from the exact element
         try:
             back = it.ev(_ast.parse(f"{cname}.decode(s)", mode="eval").body, {"s": stream})
             if cname == "STRINGI":
@@ -599,7 +600,7 @@ def d6_9(ctx):
             else:
                 dec_ok = back == value and type(back) is type(value)
             dec_note = repr(back)[:80]
-            pos_ok = stream.pos == len(wire) or cname == "PCCC_STRING"  # the PCCC string element is a fixed 84-byte field
+            pos_ok = stream.pos == len(wire) or (cname == "PCCC_STRING" and len(wire) < 84)  # the PCCC string element is a fixed 84-byte field
         except _Raise as r:
             dec_ok, dec_note, pos_ok = False, f"raises {r.name}", True
         except _Unknown as u:
